@@ -10,6 +10,7 @@ import (
 	"strings"
 
 	"golang.org/x/tools/go/packages"
+	"golang.org/x/tools/go/types/typeutil"
 
 	"verif/checker/internal/flow"
 	"verif/checker/internal/load"
@@ -1382,4 +1383,324 @@ func (c *Ctx) r0144(pk *packages.Package) {
 		c.R.Check(good, rule, fmt.Sprintf("js.jsMinifier.minifyExpr/case *js.CallExpr/rewrite#%d only for calls without spread arguments", n), c.pos(br), "behind a test of the arguments' Rest flag", "a builtin call is replaced by an operator expression built from its argument expressions without a test that none of them is a spread: `Math.pow(a,...b)` becomes `a**b`")
 	}
 	c.R.Floor(rule, "rewrites of builtin calls", n, 5)
+}
+
+// R01.45: a `!` in front of a statement that starts with function, class or let[ only where the value is discarded.
+func (c *Ctx) r0145(pk *packages.Package) {
+	const rule = "R01.45"
+	c.R.Rule(rule, "an expression statement must not start with `function`, `class` or `let[`; jsMinifier.minifyExpr writes a `!` in front of such an operand (m.write(notBytes) under m.expectExpr == expectExprStmt). That changes the operand's value, which is harmless only when the operand is the whole statement (prec == js.OpExpr): in `(class{})?a():b()` it inverts the test, in `(class{}).x=1` the output does not parse. For every such write the tests that dominate it — with local booleans replaced by their definitions — contradict `m.expectExpr == expectExprStmt && prec != js.OpExpr`")
+	info := pk.TypesInfo
+	fd := c.fn(rule, pk, "jsMinifier.minifyExpr")
+	if fd == nil {
+		return
+	}
+	var prec types.Object
+	if fd.Type.Params != nil {
+		for _, f := range fd.Type.Params.List {
+			for _, nm := range f.Names {
+				if t := info.TypeOf(f.Type); t != nil && strings.HasSuffix(t.String(), "js.OpPrec") {
+					prec = info.Defs[nm]
+				}
+			}
+		}
+	}
+	if prec == nil {
+		c.R.Unres(rule, "js.jsMinifier.minifyExpr/precedence parameter", c.pos(fd), "no parameter of type js.OpPrec")
+		return
+	}
+	isPrec := func(e ast.Expr) bool {
+		id, ok := ast.Unparen(e).(*ast.Ident)
+		return ok && info.Uses[id] == prec
+	}
+	isConst := func(e ast.Expr, name string) bool {
+		switch v := ast.Unparen(e).(type) {
+		case *ast.Ident:
+			_, ok := info.Uses[v].(*types.Const)
+			return ok && v.Name == name
+		case *ast.SelectorExpr:
+			_, ok := info.Uses[v.Sel].(*types.Const)
+			return ok && v.Sel.Name == name
+		}
+		return false
+	}
+	isField := func(e ast.Expr, name string) bool {
+		s, ok := ast.Unparen(e).(*ast.SelectorExpr)
+		return ok && s.Sel.Name == name
+	}
+	// three-valued evaluation under: m.expectExpr == expectExprStmt, prec != js.OpExpr
+	var eval func(e ast.Expr, depth int) int // 1 true, 0 false, -1 unknown
+	eval = func(e ast.Expr, depth int) int {
+		e = ast.Unparen(e)
+		switch v := e.(type) {
+		case *ast.Ident:
+			if depth < 4 {
+				if d := c.singleDef(pk, v); d != nil {
+					return eval(d, depth+1)
+				}
+			}
+		case *ast.UnaryExpr:
+			if v.Op == token.NOT {
+				if r := eval(v.X, depth); r >= 0 {
+					return 1 - r
+				}
+			}
+		case *ast.BinaryExpr:
+			switch v.Op {
+			case token.LAND:
+				a, b := eval(v.X, depth), eval(v.Y, depth)
+				if a == 0 || b == 0 {
+					return 0
+				}
+				if a == 1 && b == 1 {
+					return 1
+				}
+			case token.LOR:
+				a, b := eval(v.X, depth), eval(v.Y, depth)
+				if a == 1 || b == 1 {
+					return 1
+				}
+				if a == 0 && b == 0 {
+					return 0
+				}
+			case token.EQL, token.NEQ:
+				r := -1
+				if isPrec(v.X) && isConst(v.Y, "OpExpr") || isPrec(v.Y) && isConst(v.X, "OpExpr") {
+					r = 0 // prec == js.OpExpr is false
+				} else if isField(v.X, "expectExpr") && isConst(v.Y, "expectExprStmt") || isField(v.Y, "expectExpr") && isConst(v.X, "expectExprStmt") {
+					r = 1
+				}
+				if r >= 0 {
+					if v.Op == token.NEQ {
+						return 1 - r
+					}
+					return r
+				}
+			}
+		}
+		return -1
+	}
+	mentionsStmt := func(e ast.Expr, depth int) bool { return false }
+	var ms func(e ast.Expr, depth int) bool
+	ms = func(e ast.Expr, depth int) bool {
+		hit := false
+		ast.Inspect(e, func(z ast.Node) bool {
+			if id, ok := z.(*ast.Ident); ok {
+				if id.Name == "expectExprStmt" {
+					if _, ok := info.Uses[id].(*types.Const); ok {
+						hit = true
+					}
+				} else if depth < 4 {
+					if _, ok := info.Uses[id].(*types.Var); ok {
+						if d := c.singleDef(pk, id); d != nil && ms(d, depth+1) {
+							hit = true
+						}
+					}
+				}
+			}
+			return !hit
+		})
+		return hit
+	}
+	mentionsStmt = ms
+	g := c.graph(pk, fd)
+	n := 0
+	for _, y := range g.Nodes {
+		a := y.Ast()
+		if a == nil || y.Kind != flow.KStmt {
+			continue
+		}
+		if _, ok := a.(*ast.ExprStmt); !ok {
+			continue
+		}
+		for _, call := range findCalls(info, a, false, load.Mod+"/js.(jsMinifier).write") {
+			if len(call.Args) != 1 {
+				continue
+			}
+			id, ok := ast.Unparen(call.Args[0]).(*ast.Ident)
+			if !ok {
+				continue
+			}
+			v, ok := info.Uses[id].(*types.Var)
+			if !ok || v.Parent() != pk.Types.Scope() {
+				continue
+			}
+			if txt, ok := c.byteVarText(pk, v); !ok || txt != "!" {
+				continue
+			}
+			facts := g.DomFacts(y)
+			under := false
+			for _, f := range facts {
+				if f.Test.Kind == flow.KCond && mentionsStmt(f.Test.Expr, 0) {
+					under = true
+				}
+			}
+			if !under {
+				continue // the operator itself
+			}
+			n++
+			contradicted := false
+			for _, f := range facts {
+				if f.Test.Kind != flow.KCond {
+					continue
+				}
+				r := eval(f.Test.Expr, 0)
+				if r >= 0 && (r == 1) != f.Value {
+					contradicted = true
+				}
+			}
+			c.R.Check(contradicted, rule, fmt.Sprintf("js.jsMinifier.minifyExpr/%s/`!` in front of the statement only where its value is discarded", c.caseLabel(a)), c.pos(call), "the dominating tests exclude prec != js.OpExpr",
+				"a `!` is written in front of an operand of a larger expression statement: the operand's value is negated (`(class{})?a():b()` calls b) or the statement no longer parses (`(class{}).x=1`)")
+		}
+	}
+	c.R.Floor(rule, "negations written in front of a statement", n, 3)
+}
+
+// R01.46: a block is merged into its parent scope only when its declarations do not capture the parent's names.
+func (c *Ctx) r0146(pk *packages.Package) {
+	const rule = "R01.46"
+	c.R.Rule(rule, "optimizeStmtList dissolves the else block of `if(a){return}else{…}` into the enclosing statement list and moves the block's let/const/class declarations into the parent scope (js.Scope.Unscope of the parser). A reference of the parent scope to an outer variable of the same name then resolves to the moved declaration (`if(a){throw 1}else{let x=2;g(x)}h(x)` gave `let x=2;g(x),h(x)`), and where names are not renamed a second declaration of one name in one scope does not parse. Every call of Unscope in package js is dominated by the false outcome of a predicate of the module over the block's scope that (a) ranges over the scope's Declared and the parent's Undeclared variables and compares names, (b) ranges over a second Declared list (the parent's, for the global scope whose names are kept), and (c) the decision consults whether names are kept (KeepVarNames / the renamer's flag)")
+	info := pk.TypesInfo
+	n := 0
+	var fds []*ast.FuncDecl
+	for _, f := range pk.Syntax {
+		for _, d := range f.Decls {
+			if fd, ok := d.(*ast.FuncDecl); ok && fd.Body != nil {
+				fds = append(fds, fd)
+			}
+		}
+	}
+	for _, fd := range fds {
+		var calls []*ast.CallExpr
+		ast.Inspect(fd.Body, func(x ast.Node) bool {
+			if ce, ok := x.(*ast.CallExpr); ok {
+				if f := typeutil.StaticCallee(info, ce); f != nil && f.Name() == "Unscope" && f.Pkg() != nil && strings.HasSuffix(f.Pkg().Path(), "parse/v2/js") {
+					calls = append(calls, ce)
+				}
+			}
+			return true
+		})
+		if len(calls) == 0 {
+			continue
+		}
+		g := c.graph(pk, fd)
+		for _, call := range calls {
+			n++
+			y := g.NodeOf(call)
+			key := fmt.Sprintf("js.%s/Unscope#%d", fd.Name.Name, n)
+			if y == nil {
+				c.R.Unres(rule, key, c.pos(call), "call not in the flow graph")
+				continue
+			}
+			var preds []*ast.FuncDecl
+			kept := false
+			for _, f := range g.DomFacts(y) {
+				if f.Test.Kind != flow.KCond {
+					continue
+				}
+				e, val := ast.Unparen(f.Test.Expr), f.Value
+				for {
+					u, ok := e.(*ast.UnaryExpr)
+					if !ok || u.Op != token.NOT {
+						break
+					}
+					e, val = ast.Unparen(u.X), !val
+				}
+				s := nospace(str(e))
+				if strings.Contains(s, "KeepVarNames") || strings.Contains(s, ".rename") {
+					kept = true
+				}
+				if ce, ok := e.(*ast.CallExpr); ok && !val {
+					if _, d := c.calleeDecl(info, ce); d != nil && d.Body != nil {
+						preds = append(preds, d)
+					}
+				}
+			}
+			var pred *ast.FuncDecl
+			decl, undecl, cmp := 0, 0, false
+			for _, d := range preds {
+				dn, un, cm := 0, 0, false
+				ast.Inspect(d.Body, func(x ast.Node) bool {
+					switch v := x.(type) {
+					case *ast.RangeStmt:
+						if s, ok := ast.Unparen(v.X).(*ast.SelectorExpr); ok {
+							switch s.Sel.Name {
+							case "Declared":
+								dn++
+							case "Undeclared":
+								un++
+							}
+						}
+					case *ast.CallExpr:
+						if fn := typeutil.StaticCallee(info, v); fn != nil && fn.Pkg() != nil && fn.Pkg().Path() == "bytes" && fn.Name() == "Equal" {
+							cm = true
+						}
+					case *ast.SelectorExpr:
+						if v.Sel.Name == "KeepVarNames" || v.Sel.Name == "rename" {
+							kept = true
+						}
+					}
+					return true
+				})
+				if cm && dn >= 1 && (pred == nil || dn+un > decl+undecl) {
+					pred, decl, undecl, cmp = d, dn, un, cm
+				}
+			}
+			c.R.Check(pred != nil && decl >= 1 && undecl >= 1 && cmp, rule, key+"/(a) no declaration has the name of an outer variable the parent uses", c.pos(call), "behind a predicate that compares the block's declarations with the parent's undeclared variables",
+				"the block's declarations are moved into the parent scope without a test against the names the parent uses for outer variables: `if(a){throw 1}else{let x=2;g(x)}h(x)` becomes `if(a)throw 1;let x=2;g(x),h(x)`")
+			c.R.Check(pred != nil && decl >= 2 && cmp, rule, key+"/(b) no declaration has the name of a declaration of a scope whose names are kept", c.pos(call), "the predicate also ranges over the parent's declarations",
+				"the block's declarations are moved into the global scope without a test against its declarations, which are not renamed: `let x=1;if(a){throw 1}else{let x=2;g(x)}` declares x twice")
+			c.R.Check(kept, rule, key+"/(c) kept names are taken into account", c.pos(call), "the decision consults the KeepVarNames option",
+				"with KeepVarNames no variable is renamed, and the block's declarations are moved into a function scope without a test against its declarations: `function f(a){let x=1;if(a){return x}else{let x=2;g(x)}h(x)}` declares x twice")
+		}
+	}
+	c.R.Floor(rule, "calls of Scope.Unscope", n, 1)
+}
+
+// R01.47: only an unlabelled jump at the end of a list is superfluous.
+func (c *Ctx) r0147(pk *packages.Package) {
+	const rule = "R01.47"
+	c.R.Rule(rule, "optimizeStmtList drops a jump that ends a statement list when control gets to the same place without it (`continue` at the end of a loop body). A labelled jump names an enclosing statement and leaves more than the innermost one: `outer:for(…){switch(i){default:f();break outer}g()}` must keep its `break outer`. Every removal of a statement in optimizeStmtList (a decrement of the write index) that is dominated by a successful assertion of the statement to *js.BranchStmt is dominated by the true outcome of a test of its Label against nil")
+	info := pk.TypesInfo
+	fd := c.fn(rule, pk, "optimizeStmtList")
+	if fd == nil {
+		return
+	}
+	g := c.graph(pk, fd)
+	n := 0
+	for _, y := range g.Nodes {
+		ids, ok := y.Stmt.(*ast.IncDecStmt)
+		if !ok || y.Kind != flow.KStmt || ids.Tok != token.DEC {
+			continue
+		}
+		branch, label := false, false
+		for _, f := range g.DomFacts(y) {
+			if !f.Value || f.Test.Kind != flow.KCond {
+				continue
+			}
+			e := ast.Unparen(f.Test.Expr)
+			if id, ok := e.(*ast.Ident); ok {
+				if d := c.singleDef(pk, id); d != nil {
+					if ta, ok := ast.Unparen(d).(*ast.TypeAssertExpr); ok && ta.Type != nil && strings.HasSuffix(nospace(str(ta.Type)), "js.BranchStmt") {
+						branch = true
+					}
+				}
+			}
+			if be, ok := e.(*ast.BinaryExpr); ok && be.Op == token.EQL {
+				for _, pair := range [][2]ast.Expr{{be.X, be.Y}, {be.Y, be.X}} {
+					sel, isSel := ast.Unparen(pair[0]).(*ast.SelectorExpr)
+					nid, isNil := ast.Unparen(pair[1]).(*ast.Ident)
+					if isSel && isNil && sel.Sel.Name == "Label" && nid.Name == "nil" && info.Uses[nid] == types.Universe.Lookup("nil") {
+						label = true
+					}
+				}
+			}
+		}
+		if !branch {
+			continue
+		}
+		n++
+		c.R.Check(label, rule, fmt.Sprintf("js.optimizeStmtList/jump removed at the end of a list#%d has no label", n), c.pos(ids), "behind Label == nil",
+			"a break or continue at the end of a statement list is removed whatever its label: `outer:for(;;){switch(i){default:f();break outer}g()}` loses the `break outer` and runs g()")
+	}
+	c.R.Floor(rule, "removals of a trailing jump", n, 1)
 }
